@@ -47,28 +47,6 @@ def scan(tree, modname, funcs):
 
 def run(ctx, rep):
     m, lgs = ctx.m, ctx.lgs
-    common.check_floors(ctx, rep, 'C10')
-    R1 = rep.rule('C10.R1', 'reflexivity: the trunk of `A |- A` is a closing pair of some closure rule in every logic')
-    n = 0
-    for lg in lgs:
-        fam = designation_family(ctx, lg)
-        designated = fam == 'designation'
-        pair = (((False, True), (False, False)) if designated else ((False, None), (True, None)))
-        closes = False
-        for rc in lg.closure:
-            if lgs.rule_attrs(rc).predicate:
-                continue
-            tbl, fn, probs = closure.partner_table(m, rc, designated)
-            rep.consult(m.floc(fn))
-            if pair[1] in tbl.get(pair[0], ()) or pair[0] in tbl.get(pair[1], ()):
-                closes = True
-        n += 1
-        rep.instance(R1, ok=closes, sample=dict(logic=lg.name, trunk_pair=[closure.fmtlit(x) for x in pair]), nontrivial=lg.name)
-        if not closes:
-            rep.finding(R1, f'C10.R1/{lg.name}', m.relfile(lg.module), f'{lg.name}.Rules.closure',
-                        f'the trunk of `A |- A` ({closure.fmtlit(pair[0])}, {closure.fmtlit(pair[1])}) is not closed by any closure rule')
-    rep.floor('C10.R1', 'logics', n, 57)
-
     R2 = rep.rule('C10.R2', 'symbol blindness of the prover: no inspection of symbol identity outside reviewed sites')
     # positive fixture
     ftree = ast.parse(FIXTURE.read_text())
@@ -92,6 +70,28 @@ def run(ctx, rep):
                             f'{what}: the proof search would depend on which symbol is used, not only on its order')
     rep.floor('C10.R2', 'functions scanned', nfn, 600)
     rep.instance(R2, ok=True, nontrivial='scan-complete')
+    common.check_floors(ctx, rep, 'C10')
+    R1 = rep.rule('C10.R1', 'reflexivity: the trunk of `A |- A` is a closing pair of some closure rule in every logic')
+    n = 0
+    for lg in lgs:
+        fam = designation_family(ctx, lg)
+        designated = fam == 'designation'
+        pair = (((False, True), (False, False)) if designated else ((False, None), (True, None)))
+        closes = False
+        for rc in lg.closure:
+            if lgs.rule_attrs(rc).predicate:
+                continue
+            tbl, fn, probs = closure.partner_table(m, rc, designated)
+            rep.consult(m.floc(fn))
+            if pair[1] in tbl.get(pair[0], ()) or pair[0] in tbl.get(pair[1], ()):
+                closes = True
+        n += 1
+        rep.instance(R1, ok=closes, sample=dict(logic=lg.name, trunk_pair=[closure.fmtlit(x) for x in pair]), nontrivial=lg.name)
+        if not closes:
+            rep.finding(R1, f'C10.R1/{lg.name}', m.relfile(lg.module), f'{lg.name}.Rules.closure',
+                        f'the trunk of `A |- A` ({closure.fmtlit(pair[0])}, {closure.fmtlit(pair[1])}) is not closed by any closure rule')
+    rep.floor('C10.R1', 'logics', n, 57)
+
     # R3: instantiation/substitution is exact (hence equivariant under renaming): C15.R1
     from ..core import Report
     from . import c15
